@@ -467,7 +467,7 @@ pub fn c11(args: &Args) -> Report {
         mix.remove = 3;
         mix.vanish = 0;
         mix.reopen = 3;
-        mix.rebuild = if i % 3 == 0 { 1 } else { 0 };
+        mix.rebuild = if i % 3 == 0 { 3 } else { 0 };
         mix.max_del_tags = 3;
         let mut flags = base_flags();
         flags.marker_monotonic = true;
